@@ -17,7 +17,7 @@ RULE = (
 )
 ASSUMPTIONS = [
     "co-running strategies share streams (same listener arguments) and one simulated client without transaction limit",
-    "80% World A; 20% World B live sessions (exception injected into check/process market book, process_new_market, process_orders during current-orders processing, custom-event callbacks and, in a third of them, process_raw_data of a raw-data (DataStream) strategy; delivery of every market update / raw datum to the other strategies checked); in another quarter check_sports_data/process_sports_data of a race-subscription strategy (rcm messages through the real bflw race stream; cricket data is not generated)",
+    "80% World A (30% of its single-market cases replay recorded race data through flumine's SimulatedSportsDataMiddleware, with the exception injected into check_sports_data/process_sports_data in 60% of those); 20% World B live sessions (exception injected into check/process market book, process_new_market, process_orders during current-orders processing, custom-event callbacks and, in a third of them, process_raw_data of a raw-data (DataStream) strategy; delivery of every market update / raw datum to the other strategies checked); in another quarter check_sports_data/process_sports_data of a race-subscription strategy (rcm messages through the real bflw race stream; cricket data is not generated)",
     "process_closed_market is not among the callbacks the property lists and is not injected",
 ]
 from . import C11 as _c11
@@ -146,11 +146,21 @@ def generate(rng, i, tier):
                     if u.get(key) and old in u[key]:
                         u[key][n] = u[key].pop(old)
     sc["cfg"]["isolation"] = True
+    sports = len(sc["markets"]) == 1 and rng.random() < 0.3
+    if sports:
+        # recorded race data replayed by flumine's SimulatedSportsDataMiddleware (one market: the middleware holds one generator)
+        sc["sports_data"] = True
+        for k, u in enumerate(sc["markets"][0]["updates"]):
+            if u["st"] != "CLOSED" and rng.random() < 0.6:
+                u["rcm"] = k + 1
     target = rng.choice(["B", "B", "C", "mw"])
     if target == "mw":
         sc["fault"] = {"middleware": {"name": "mw", "raise_at": rng.randint(1, 10), "flumine": rng.random() < 0.3}}
     else:
         sc["fault"] = {"inject": {"strategy": target, "kind": rng.choice(["check", "book", "book", "orders", "new"]), "nth": rng.randint(1, 8), "flumine": rng.random() < 0.3}}
+        if sports and rng.random() < 0.6:
+            sc["fault"]["inject"]["kind"] = rng.choice(["sports_check", "sports"])
+            sc["fault"]["inject"]["nth"] = rng.randint(1, 5)
     return sc
 
 
@@ -236,6 +246,22 @@ def execute(scenario):
         fired = any(k.startswith("callback_exception") for k in res1.faults)
         if fired:
             out.nontrivial = True
+        if scenario.get("sports_data"):
+            # fault-free run: which recorded race updates reached the strategies (reach probe; the C13 clause is the comparison below)
+            m = scenario["markets"][0]
+            delivered = set(pt for (mid, pt) in run0.update_log)
+            want = [u["pt"] - 1 for u in m["updates"] if u.get("rcm") and u["pt"] in delivered]
+            for n in names:
+                for kind in ("sports_check", "sports"):
+                    got = [c[2] for c in calls0.get(n) or [] if c[0] == kind]
+                    # observation only (not part of C13, which speaks about the effect of an exception): flumine's sports-data
+                    # middleware re-delivers the last recorded update at every later market book once its file is exhausted
+                    dedup = [x for i, x in enumerate(got) if i == 0 or x != got[i - 1]]
+                    if got != want:
+                        out.probes["c13.observed.sports_update_redelivered_after_file_end"] += 1
+                    if dedup != want:
+                        out.probes["c13.observed.sports_delivery_differs_otherwise"] += 1
+            out.probes["c13.sim_sports_data_updates"] += len(want)
         victim = (scenario["fault"].get("inject") or {}).get("strategy")
         for n in names:
             if n == victim:
